@@ -86,7 +86,12 @@ static inline int AN_d(struct dt_d_s d)
 	}
 }
 #define ADD_T(t) ((t) == DT_YMD || (t) == DT_YD || (t) == DT_YWD || (t) == DT_DAISY || (t) == DT_LDN || (t) == DT_MDN)
-#define SAME_META(r, d) ((r).typ == (d).typ && (r).param == (d).param && (r).neg == (d).neg && (r).fix == (d).fix && (r).xxx == (d).xxx)
+/* the first 16 bits of a dt_d_s hold typ, fix, xxx, neg and two unnamed fields that the enclosing dt_dt_s uses for its sandwich, znfxd,
+ * tai and zdiff flags (lib/date-core.h: "unused here, but used by inherited types"): date arithmetic must hand all of them back unchanged */
+union verif_d_raw { struct dt_d_s s; uint64_t w; };
+#define RAW_d(X_) (((union verif_d_raw){.s = (X_)}).w)
+#define SAME_META(r, d) ((r).typ == (d).typ && (r).param == (d).param && (r).neg == (d).neg && (r).fix == (d).fix && (r).xxx == (d).xxx && \
+	(RAW_d(r) & 0xffffULL) == (RAW_d(d) & 0xffffULL))
 #define PRE_dt_dadd_d(d, n) (V_d(d) && ADD_T((d).typ) && N_OK(n) && IN_RANGE(AN_d(d) + (n)))
 #define POST_dt_dadd_d(ret, d, n) (SAME_META(ret, d) && V_d(ret) && AN_d(ret) == AN_d(d) + (n))
 struct dt_d_s dt_dadd_d(struct dt_d_s d, int n)
@@ -98,12 +103,23 @@ CONTRACT(PRE_dt_dadd_w(d, n), POST_dt_dadd_w(RV, d, n));
 /* dt_dadd with a day or week duration */
 /* C04: months / years on ymd values: (year, month) moves by exactly n months (12 n for years), the day field is kept (lazy ultimo) */
 #define MIDX(y, m) (12 * (int)(y) + (int)(m) - 1)
-#define PRE_dt_dadd_m(d, n) ((d).typ == DT_YMD && L_YMD((d).ymd) && (n) >= -30000 && (n) <= 30000 && MIDX((d).ymd.y, (d).ymd.m) + (n) >= MIDX(1601, 1) && MIDX((d).ymd.y, (d).ymd.m) + (n) <= MIDX(4095, 12))
-#define POST_dt_dadd_m(ret, d, n) (SAME_META(ret, d) && L_YMD((ret).ymd) && (ret).ymd.d == (d).ymd.d && MIDX((ret).ymd.y, (ret).ymd.m) == MIDX((d).ymd.y, (d).ymd.m) + (n))
+#define M_RNG(Y_, M_, N_) ((N_) >= -30000 && (N_) <= 30000 && MIDX(Y_, M_) + (N_) >= MIDX(1601, 1) && MIDX(Y_, M_) + (N_) <= MIDX(4095, 12))
+#define Y_RNG(Y_, N_) ((N_) >= -2500 && (N_) <= 2500 && V_YEAR((int)(Y_) + (N_)))
+/* per calendar: what a month / year step keeps and what it moves (the crop is left to the fixup at print time) */
+#define ADDM_YMD(R_, D_, N_) (L_YMD(R_) && (R_).d == (D_).d && MIDX((R_).y, (R_).m) == MIDX((D_).y, (D_).m) + (N_))
+#define ADDM_YMCW(R_, D_, N_) (L_YMCW(R_) && (R_).c == (D_).c && (R_).w == (D_).w && MIDX((R_).y, (R_).m) == MIDX((D_).y, (D_).m) + (N_))
+#define ADDY_YMD(R_, D_, N_) (L_YMD(R_) && (R_).d == (D_).d && (R_).m == (D_).m && (int)(R_).y == (int)(D_).y + (N_))
+#define ADDY_YMCW(R_, D_, N_) (L_YMCW(R_) && (R_).c == (D_).c && (R_).w == (D_).w && (R_).m == (D_).m && (int)(R_).y == (int)(D_).y + (N_))
+#define ADDY_YD(R_, D_, N_) ((R_).d == (D_).d && (int)(R_).y == (int)(D_).y + (N_))
+#define ADDY_YWD(R_, D_, N_) ((int)(R_).y == (int)(D_).y + (N_) && (R_).c == (D_).c && (R_).w == (D_).w && (int)(R_).hang == S_HANG((int)(D_).y + (N_)))
+#define PRE_dt_dadd_m(d, n) (((d).typ == DT_YMD && L_YMD((d).ymd) && M_RNG((d).ymd.y, (d).ymd.m, n)) || ((d).typ == DT_YMCW && L_YMCW((d).ymcw) && M_RNG((d).ymcw.y, (d).ymcw.m, n)))
+#define POST_dt_dadd_m(ret, d, n) (SAME_META(ret, d) && ((d).typ == DT_YMD ? ADDM_YMD((ret).ymd, (d).ymd, n) : ADDM_YMCW((ret).ymcw, (d).ymcw, n)))
 struct dt_d_s dt_dadd_m(struct dt_d_s d, int n)
 CONTRACT(PRE_dt_dadd_m(d, n), POST_dt_dadd_m(RV, d, n));
-#define PRE_dt_dadd_y(d, n) ((d).typ == DT_YMD && L_YMD((d).ymd) && (n) >= -2500 && (n) <= 2500 && V_YEAR((int)(d).ymd.y + (n)))
-#define POST_dt_dadd_y(ret, d, n) (SAME_META(ret, d) && L_YMD((ret).ymd) && (ret).ymd.d == (d).ymd.d && (ret).ymd.m == (d).ymd.m && (int)(ret).ymd.y == (int)(d).ymd.y + (n))
+#define PRE_dt_dadd_y(d, n) (((d).typ == DT_YMD && L_YMD((d).ymd) && Y_RNG((d).ymd.y, n)) || ((d).typ == DT_YMCW && L_YMCW((d).ymcw) && Y_RNG((d).ymcw.y, n)) || \
+	((d).typ == DT_YD && L_YD((d).yd) && Y_RNG((d).yd.y, n)) || ((d).typ == DT_YWD && L_YWD((d).ywd) && Y_RNG((d).ywd.y, n)))
+#define POST_dt_dadd_y(ret, d, n) (SAME_META(ret, d) && ((d).typ == DT_YMD ? ADDY_YMD((ret).ymd, (d).ymd, n) : (d).typ == DT_YMCW ? ADDY_YMCW((ret).ymcw, (d).ymcw, n) : \
+	(d).typ == DT_YD ? ADDY_YD((ret).yd, (d).yd, n) : ADDY_YWD((ret).ywd, (d).ywd, n)))
 struct dt_d_s dt_dadd_y(struct dt_d_s d, int n)
 CONTRACT(PRE_dt_dadd_y(d, n), POST_dt_dadd_y(RV, d, n));
 
@@ -138,6 +154,13 @@ CONTRACT(PRE___get_isowk(y), POST___get_isowk(RV, y));
 #define POST_dt_dur_neg_p(ret, dur) ((ret) == (VAL_DUR((dur).durtyp) ? ((dur).dv < 0) : (int)(dur).neg))
 int dt_dur_neg_p(struct dt_ddur_s dur)
 CONTRACT(PRE_dt_dur_neg_p(dur), POST_dt_dur_neg_p(RV, dur));
+
+#define SGN3(a, b) ((a) < (b) ? -1 : (a) > (b) ? 1 : 0)
+/* ymcw values are not monotone in their bit pattern: dedicated comparison */
+#define PRE___ymcw_cmp(d1, d2) (V_YMCW(d1) && V_YMCW(d2))
+#define POST___ymcw_cmp(ret, d1, d2) ((ret) == (GY_YMCW(d1) != GY_YMCW(d2) ? SGN3(GY_YMCW(d1), GY_YMCW(d2)) : SGN3(GYD_YMCW(d1), GYD_YMCW(d2))))
+int __ymcw_cmp(dt_ymcw_t d1, dt_ymcw_t d2)
+CONTRACT(PRE___ymcw_cmp(d1, d2), POST___ymcw_cmp(RV, d1, d2));
 
 /* comparison of same-typed dates: the chronological order (C08) */
 #define CMP_T(t) ((t) == DT_YMD || (t) == DT_YD || (t) == DT_YWD || (t) == DT_DAISY)
